@@ -116,3 +116,24 @@ Section Serial.
   Definition reload (h : heap) (fuel : nat) (r : nat) : option heap :=
     let ds := save h fuel r in if resolves ds then load_into h ds else None.
 End Serial.
+
+(* The job process (fromParameters, as_instance=True, l.1627-1652): which lightweight tasks are executed, and in
+   which order.  Pre-tasks of EVERY definition, in definition order, each once; then the init tasks of the LAST
+   definition (the task that runs) that were not already executed as pre-tasks, each once.                       *)
+Fixpoint add_new (seen out xs : list nat) : list nat * list nat :=
+  match xs with
+  | [] => (seen, out)
+  | x :: xs' => if existsb (Nat.eqb x) seen then add_new seen out xs'
+                else add_new (x :: seen) (out ++ [x]) xs'
+  end.
+
+Definition exec_pre (ds : list def) : list nat * list nat :=
+  fold_left (fun st d => add_new (fst st) (snd st) (d_pre d)) ds ([], []).
+
+Definition exec_init (ds : list def) : list nat :=
+  match rev ds with
+  | [] => []
+  | d :: _ => snd (add_new (fst (exec_pre ds)) [] (d_init d))
+  end.
+
+Definition exec_plan (ds : list def) : list nat := snd (exec_pre ds) ++ exec_init ds.
